@@ -6,7 +6,7 @@
 (* per case: Init picks the case, Judge evaluates every clause and records *)
 (* the first failing one.                                                  *)
 (***************************************************************************)
-EXTENDS Integers, Sequences, FiniteSets, TLC, Json, IOUtils, Layout, Affine, Template, Streamer, CsrLayout
+EXTENDS Integers, Sequences, FiniteSets, TLC, Json, IOUtils, Layout, Affine, Template, Streamer, CsrLayout, PE
 
 Batch == JsonDeserialize(IOEnv.BATCH)
 Cases == Batch.cases
@@ -154,6 +154,19 @@ DispatchDecl(c) ==
   LET declared == \E i \in DOMAIN c.declared : c.declared[i] = c.sig IN
   First(<< <<"DispatchedOnlyIfDeclared", c.dispatched = 1 => declared>> >>)
 
+(* ---------------- C20: a merged PE, configured as decoded, computes each kernel ---------------- *)
+DataBox(n) == Box0(n, -2, 2)
+PECase(c) ==
+  LET G == c.abstract  nreal == Len(RealSwitches(G)) IN
+  First(<<
+    <<"DecodeSucceeds", \A j \in DOMAIN c.decoded : c.decoded[j].ok = 1>>,
+    <<"SwitchCountReported", c.true_switches = nreal>>,
+    <<"SwitchCountDecoded", \A j \in DOMAIN c.decoded : c.decoded[j].ok = 1 => Len(c.decoded[j].sw) = nreal>>,
+    <<"ComputesKernel", \A j \in DOMAIN c.decoded : (c.decoded[j].ok = 1 /\ Len(c.decoded[j].sw) = nreal) =>
+         \A d \in DataBox(G.ndata) :
+            LET v == EvalPE(G, Expand(G, c.decoded[j].sw), d) IN v # Undef /\ v = EvalKernel(c.kernels[j], d)>>
+  >>)
+
 EqCase(c) == First(<< <<c.clause, c.x = c.y>> >>)
 
 JudgeObj(c) ==
@@ -171,6 +184,7 @@ JudgeObj(c) ==
     [] c.kind = "stream" -> StreamCase(c)
     [] c.kind = "regmap" -> MapCase(c)
     [] c.kind = "dispatchdecl" -> DispatchDecl(c)
+    [] c.kind = "pe" -> PECase(c)
     [] c.kind = "chosenlayout" -> ChosenLayout(c)
     [] OTHER -> "machinery:unknown-kind"
 
